@@ -21,6 +21,7 @@ struct DevRec { int type; Bytes in; Bytes out; Bytes raw; };   // type 0: signer
 struct AexSim {
     const Plan &p; Result &r; Net net;
     secp256k1_context *hctx = nullptr, *dctx = nullptr;
+    const secp256k1_context *vctx = nullptr;   // what the host verifies with: its own context or secp256k1_context_static (the header allows both)
     uint64_t inseed = 0, draw = 0;
     uint8_t sk[32]; secp256k1_pubkey pk; ref::Pt pkpt;
     // host
@@ -158,7 +159,7 @@ struct AexSim {
             host_persist();    // rho durable before the commitment leaves the host
         }
         MonMark mk = mon_mark();
-        int ok = L01(secp256k1_ecdsa_anti_exfil_host_commit(hctx, H.commit, H.rho));
+        int ok = L01(secp256k1_ecdsa_anti_exfil_host_commit(vctx, H.commit, H.rho));
         if (!ok || !mon_quiet_since(mk)) { r.violate("C15", "host_commit_failed", "secp256k1_ecdsa_anti_exfil_host_commit", "host_commit failed"); return; }
         all_rho.push_back(Bytes(H.rho, H.rho + 32));
         r.ev("host: run " + std::to_string(run) + (resume ? " (resumed)" : "") + " msg " + hex(H.msg, 32).substr(0, 16));
@@ -177,7 +178,7 @@ struct AexSim {
         if (!m.intact() || m.copy) H.run_faulty = true;
         if (m.kind == K_OPENING && H.stage == 0) {
             secp256k1_ecdsa_s2c_opening op;
-            bool ok = m.bytes.size() == 33 && L01(secp256k1_ecdsa_s2c_opening_parse(hctx, &op, m.bytes.data()));
+            bool ok = m.bytes.size() == 33 && L01(secp256k1_ecdsa_s2c_opening_parse(vctx, &op, m.bytes.data()));
             { ref::Pt q; bool mp = m.bytes.size() == 33 && ref::parse_pubkey(m.bytes.data(), 33, &q); r.cmp();
               if (ok != mp) { r.violate("C15", "parse", "secp256k1_ecdsa_s2c_opening_parse", "library and model disagree on a received opening " + hex(m.bytes)); return; } }
             if (!ok) return;   // wait for the retransmission timer
@@ -187,12 +188,12 @@ struct AexSim {
         } else if (m.kind == K_SIG && H.stage == 1) {
             if (m.bytes.size() != 64) return;
             secp256k1_ecdsa_signature sig; secp256k1_ecdsa_s2c_opening op;
-            if (!L01(secp256k1_ecdsa_signature_parse_compact(hctx, &sig, m.bytes.data()))) return;
-            if (!L01(secp256k1_ecdsa_s2c_opening_parse(hctx, &op, H.opening.data()))) return;
+            if (!L01(secp256k1_ecdsa_signature_parse_compact(vctx, &sig, m.bytes.data()))) return;
+            if (!L01(secp256k1_ecdsa_s2c_opening_parse(vctx, &op, H.opening.data()))) return;
             MonMark mk = mon_mark();
-            int v = L01(secp256k1_anti_exfil_host_verify(hctx, &sig, H.msg, &pk, H.rho, &op));
-            int vc = L01(secp256k1_ecdsa_s2c_verify_commit(hctx, &sig, H.rho, &op));
-            int ve = L01(secp256k1_ecdsa_verify(hctx, &sig, H.msg, &pk));
+            int v = L01(secp256k1_anti_exfil_host_verify(vctx, &sig, H.msg, &pk, H.rho, &op));
+            int vc = L01(secp256k1_ecdsa_s2c_verify_commit(vctx, &sig, H.rho, &op));
+            int ve = L01(secp256k1_ecdsa_verify(vctx, &sig, H.msg, &pk));
             bool me = ref::ecdsa_verify(pkpt, H.msg, m.bytes.data(), m.bytes.data() + 32);
             r.cmp();
             if (!mon_quiet_since(mk)) { r.violate("C15", "callback", "secp256k1_anti_exfil_host_verify", "callback on parsed arguments"); return; }
@@ -207,13 +208,13 @@ struct AexSim {
             if (!expect && v) { r.violate("C15", "soundness", "secp256k1_anti_exfil_host_verify", "host_verify accepted although the opening or the signature is not what the device produced for this (msg, rho)"); return; }
             // cross checks: another run's randomness or opening must not verify
             for (auto &orho : all_rho) if (memcmp(orho.data(), H.rho, 32) != 0) {
-                int x = L01(secp256k1_ecdsa_s2c_verify_commit(hctx, &sig, orho.data(), &op)); r.cmp();
+                int x = L01(secp256k1_ecdsa_s2c_verify_commit(vctx, &sig, orho.data(), &op)); r.cmp();
                 if (x && vc) { r.violate("C15", "verify_commit", "secp256k1_ecdsa_s2c_verify_commit", "commitment verifies for two different data"); return; }
             }
             for (auto &oo : all_open) if (oo != H.opening) {
                 secp256k1_ecdsa_s2c_opening o2;
-                if (!L01(secp256k1_ecdsa_s2c_opening_parse(hctx, &o2, oo.data()))) continue;
-                int x = L01(secp256k1_ecdsa_s2c_verify_commit(hctx, &sig, H.rho, &o2)); r.cmp();
+                if (!L01(secp256k1_ecdsa_s2c_opening_parse(vctx, &o2, oo.data()))) continue;
+                int x = L01(secp256k1_ecdsa_s2c_verify_commit(vctx, &sig, H.rho, &o2)); r.cmp();
                 if (x && vc) { r.violate("C15", "verify_commit", "secp256k1_ecdsa_s2c_verify_commit", "commitment verifies for two different openings"); return; }
             }
             if (v) { r.probe("run_verified"); host_finish(true); }
@@ -235,6 +236,8 @@ struct AexSim {
         for (const Op &o : p.ops) if (o.k == "run") { int i = (int)(((o.arg(0) % nruns) + nruns) % nruns); msgclass[i] = (int)(o.arg(1) % 5); reuse_rho[i] = (int)(o.arg(2) & 1); }
         hctx = L(secp256k1_context_create(SECP256K1_CONTEXT_NONE));
         dctx = L(secp256k1_context_create(SECP256K1_CONTEXT_NONE));
+        vctx = p.c("host_static") ? secp256k1_context_static : hctx;
+        if (p.c("host_static")) r.fault("host_uses_static_context");
         fresh32(sk); sk[0] &= 0x7f; sk[31] |= 1;
         if (p.c("keyclass") == 1) { memset(sk, 0, 32); sk[31] = 1; }
         if (p.c("keyclass") == 2) { ref::U256 v = ref::FN.neg(ref::U256(1)); v.to_be(sk); }
@@ -278,6 +281,7 @@ static Plan aex_generate(uint64_t seed, int tier) {
     int nruns = (int)g.range(1, tier ? 6 : 4);
     p.cfg["nruns"] = nruns;
     p.cfg["keyclass"] = g.chance(1, 8) ? (int64_t)g.range(1, 2) : 0;
+    p.cfg["host_static"] = g.chance(1, 3);
     for (int i = 0; i < nruns; i++) { Op o; o.k = "run"; o.a = {i, g.chance(1, 3) ? (int64_t)g.range(1, 4) : 0, g.chance(1, 4)}; p.ops.push_back(o); }
     int mode = (int)g.below(6);
     if (mode >= 1) {
